@@ -132,7 +132,7 @@ def quality_trim_index(c):
     c.ghost("brk5 = n\nbrk3 = -1", after="start = 0")
     c.ghost("brk5 = i", before="break", occurrence=1)
     c.ghost("brk3 = i", before="break", occurrence=2)
-    c.ghost("g_start = start\ng_stop = stop", after="for i in reversed(range(n))")
+    c.ghost("g_start = start\ng_stop = stop", after="loop:2")
     c.loop(1, head="for i in range(n)", inv=[
         "0 <= i_next <= n and n == len(qualities) and stop == n and brk5 == n and brk3 == -1",
         "s == S5(qualities, cutoff_front, base, i_next)",
